@@ -120,15 +120,26 @@ func (p *engProject) envKey(t *engTarget) string {
 	if t.Helper {
 		k += fmt.Sprintf("|helper=%d", p.HelperVer)
 	}
-	// adding or removing a target of the same package shifts the indices this function's bytecode uses (see render)
-	var same []int
+	// A module has one constant pool, one name table and one global table: what can shift the indices this function's
+	// bytecode uses is the SHAPE of the file -- how many functions and constants precede what it references -- not which
+	// targets they belong to. The shape is the list of styles of the package's targets in file order (style 1 defines two
+	// globals, the others one) together with this target's position. Replacing a target by another of the same style at
+	// the same position changes nothing for the others (all other edits replace a constant in place).
+	var same []*engTarget
 	for _, o := range p.Targets {
 		if o.Pkg == t.Pkg {
-			same = append(same, o.ID)
+			same = append(same, o)
 		}
 	}
-	sort.Ints(same)
-	return k + fmt.Sprintf("|file=%v", same)
+	sort.Slice(same, func(i, j int) bool { return same[i].ID < same[j].ID })
+	shape, pos := "", 0
+	for i, o := range same {
+		shape += strconv.Itoa(o.Style)
+		if o.ID == t.ID {
+			pos = i
+		}
+	}
+	return k + fmt.Sprintf("|shape=%s|pos=%d", shape, pos)
 }
 
 func (p *engProject) envID(t *engTarget) int {
